@@ -2728,5 +2728,56 @@ func (st *ConcState) FieldOf(obj ssa.Value, field string) (k int64, isInt bool, 
 	if fv, ok := st.fvals[key]; ok {
 		return 0, false, fv
 	}
+	if st.cfg != nil && st.cfg.Conc != nil {
+		// a field inherited through a whole copy from an object whose fields the rule fixed by their rendering
+		if n, ok := st.cfg.Conc(st.fieldDesc(obj, field)); ok {
+			return n, true, nil
+		}
+	}
 	return 0, false, nil
+}
+
+// fieldDesc: field `field` of the struct obj denotes, as a load of it would be rendered ("c.jsonEncoder.spaced").
+func (st *ConcState) fieldDesc(obj ssa.Value, field string) string {
+	v := obj
+	for i := 0; i < 12; i++ {
+		if u, ok := v.(*ssa.UnOp); ok && u.Op == token.MUL {
+			v = u.X
+			continue
+		}
+		if mi, ok := v.(*ssa.MakeInterface); ok {
+			v = mi.X
+			continue
+		}
+		if nx := st.alias[v]; nx != nil {
+			v = nx
+			continue
+		}
+		break
+	}
+	return strings.TrimPrefix(st.Desc(v), "&") + "." + field
+}
+
+// FieldFrom: the rendering ("enc.EncoderConfig") of the field that field `field` of obj is a copy of, when obj got it
+// through whole-struct copies (*clone = *enc) and nothing was stored into it since; "" otherwise.
+func (st *ConcState) FieldFrom(obj ssa.Value, field string) string {
+	key := st.fieldKey(obj, field)
+	hops := 0
+	for ; hops < 6; hops++ {
+		_, h1 := st.fmem[key]
+		_, h2 := st.fvals[key]
+		if h1 || h2 {
+			return ""
+		}
+		src, copied := st.fvals[st.fieldKey(obj, "*")]
+		if !copied {
+			break
+		}
+		obj = src
+		key = st.fieldKey(obj, field)
+	}
+	if hops == 0 {
+		return ""
+	}
+	return st.fieldDesc(obj, field)
 }
